@@ -6,7 +6,7 @@ from __future__ import annotations
 import ast
 import re
 
-from ..astutil import call_attr, calls_in, guard_facts, unparse, walk_local
+from ..astutil import call_attr, calls_in, guard_facts, unparse, walk_local, text_facts
 from ..cfg import CFG
 from ..report import Finding, Report
 from ..srcindex import AnalysisError, Index, raw_funcs
@@ -221,7 +221,7 @@ def check_predicate(idx: Index, rep: Report) -> None:
     cfg = CFG(f.node)
     rets = [n for n in walk_local(f.node) if isinstance(n, ast.Return)]
     none_rets = [n for n in rets if isinstance(n.value, ast.Constant) and n.value.value is None]
-    facts_all = [[(unparse(t), p) for t, p in guard_facts(f.node, n)] for n in none_rets]
+    facts_all = [text_facts(f.node, n) for n in none_rets]
     no_iface = any(any(re.fullmatch(r"effect_interfaces|len\(effect_interfaces\) == 0", t) and p is False or re.fullmatch(r"not effect_interfaces", t) and p for t, p in fs) for fs in facts_all)
     inner_none = any(any(re.fullmatch(r"\w+ is None", t) and p for t, p in fs) for fs in facts_all)
     if no_iface:
@@ -242,7 +242,7 @@ def check_predicate(idx: Index, rep: Report) -> None:
 
 
 def _guarded(f, call: ast.Call, pats: list[str]) -> list[str]:
-    facts = [(unparse(t), p) for t, p in guard_facts(f.node, call)]
+    facts = text_facts(f.node, call)
     missing = []
     for pat in pats:
         want_pol = not pat.startswith("!")
@@ -390,7 +390,7 @@ def check_notify_and_entry(idx: Index, rep: Report) -> None:
     firsts = [s for s in f.node.body if isinstance(s, ast.Assign) and unparse(s) == f"first = {f.node.args.args[1].arg}.first_block"]
     (r.ok(f.fq + ":entry", f"{f.loc} entry block = region.first_block is never erased") if firsts else r.fail(f.fq + ":entry", Finding("C13.R4", f.fq, "entry-block", "`first` is not region.first_block: the entry block could be erased", f.loc)))
     rec = [c for c in calls_in(f.node) if unparse(c.func) == "self.delete_dead"]
-    ok = bool(rec) and all((("self.is_live(operation)", True) in [(unparse(t), p) for t, p in guard_facts(f.node, c)]) for c in rec)
+    ok = bool(rec) and all((("self.is_live(operation)", True) in text_facts(f.node, c)) for c in rec)
     (r.ok(f.fq + ":descend", f"{f.loc} regions of live ops are cleaned recursively") if ok else r.fail(f.fq + ":descend", Finding("C13.R4", f.fq, "no-descent", "regions of live operations are not cleaned (dead code remains after the pass)", f.loc)))
     ch = [s for s in walk_local(f.node) if isinstance(s, ast.Assign) and unparse(s) == "self.changed = True"]
     if len(ch) >= 2:
